@@ -95,3 +95,16 @@ package tredactemail
 //@ func redactEmail(src string) string
 //@   modifies scanend
 //@   ensures[no-candidate-unchanged] (forall q int :: 0 <= q && q < len(src) ==> !cand(src, q)) ==> result === src
+
+// ==== configuration: verify => construct (C16) ===================================================================================
+//@ pure func cfgok(cfg *Config, s base.LogSchema) bool := len(cfg.Key) > 0 && base.hasf(s, key(cfg.Key)) && len(cfg.MetricLabel) > 0
+//@ func (cfg *Config) VerifyConfig(schema base.LogSchema) error
+//@   property C16
+//@   requires cfg != nil
+//@   modifies nothing
+//@   ensures[accepted-config-is-constructible] result == nil ==> cfgok(cfg, schema)
+//@ func (cfg *Config) NewTransform(schema base.LogSchema, _ logger.Logger, customCounterRegistry base.LogCustomCounterRegistry) base.LogTransform
+//@   property C16
+//@   requires cfg != nil && cfgok(cfg, schema) && customCounterRegistry != nil
+//@   modifies nothing
+//@   ensures  result != nil
